@@ -2,6 +2,7 @@
 package c09
 
 import (
+	"os"
 	"regexp"
 	"strconv"
 	"sort"
@@ -38,7 +39,12 @@ type input struct {
 	Want string `json:"want,omitempty"`
 }
 
+var breadcrumb = os.Getenv("VERIF_BREADCRUMB")
+
 func parseBoth(s string) (e1, e2 error, perr error) {
+	if breadcrumb != "" {
+		_ = os.WriteFile(breadcrumb, []byte(s), 0o644) // the last text submitted, for a post-mortem of a killed process
+	}
 	perr = rec.Guard(func() {
 		_, e1 = nfa.Parse(s)
 		_, e2 = rast.Parse(s)
